@@ -20,6 +20,7 @@ dictionary model and (ii) with the implementation: the generated files carry uni
 returned / cached / read after the history identifies the record.
 """
 import os
+import re
 
 import numpy as np
 
@@ -27,10 +28,11 @@ from .. import core
 from ..dbutil import Files, digest, err_enum, hx, hxlist, renumber, unhx
 
 RULE = ("seeded histories of 3-14 operations over a weighted alphabet favouring multi-step patterns (load twice, load of a list of 1-3 files: new / "
-        "already loaded / repeated / no file, copy then inspect, update with a late clash, rename then read / then iterate, clear by pattern) on 7 generated files (.pkl x3, .ts, .csv, .tda, "
+        "already loaded / repeated / no file, file names absolute / relative to the working directory / with redundant components, "
+        "change of the working directory, single-series get / geta by unique / unknown / ambiguous name or by index, copy then inspect, update with a late clash, rename then read / then iterate, clear by pattern) on 7 generated files (.pkl x3, .ts, .csv, .tda, "
         ".dat; names with spaces, brackets, '/'-in-brackets, not in alphabetical order on file) and in-memory series; a names "
         "argument (getm / update / copy, and as a list also clear) is None, one pattern, a list of 1-3 patterns (equal, overlapping or disjoint), or 2-4 distinct exact names in random (mostly non-file) order; a third of the histories "
-        "starts with one or two lazy loads; thorough adds all histories of length <= 3 over a fixed 21-letter alphabet; "
+        "starts with one or two lazy loads; thorough adds all histories of length <= 3 over a fixed 23-letter alphabet; "
         "second family: per format (all ten) histories on one synthesised file of 3-5 series: load, multi-series "
         "getm/getd/getl/getda by shuffled names / full keys / index lists, get, copy and update into a fresh database, iterate, "
         "clear, rename (all formats, mostly of series not read yet; corner histories: rename then read, two series exchanging their "
@@ -243,10 +245,10 @@ def gen_history(rng, L=None):
             if rng.random() < 0.35:
                 # a LIST of 1-3 files: new, already loaded, repeated (drawn with replacement), or no file at all (-1)
                 fl = [(-1 if rng.random() < 0.12 else rng.choices(range(len(FILES)), FILE_WEIGHTS)[0]) for _ in range(rng.choice([1, 2, 2, 3]))]
-                ops.append(("loadl", w, fl, rng.random() < 0.35))
+                ops.append(("loadl", w, fl, rng.random() < 0.35, [rng.choice(SPELLINGS) for _ in fl]))
             else:
                 fi = rng.choices(range(len(FILES)), FILE_WEIGHTS)[0]
-                ops.append(("load", w, fi, rng.random() < 0.35))
+                ops.append(("load", w, fi, rng.random() < 0.35, rng.choice(SPELLINGS)))
         elif r < 0.27:
             ops.append(("add", w, rng.choice(NAMES)))
         elif r < 0.39:
@@ -260,10 +262,15 @@ def gen_history(rng, L=None):
             ops.append(("update", gen_names(rng), rng.random() < 0.5))
         elif r < 0.66:
             ops.append(("copy", gen_names(rng), rng.random() < 0.5))
-        elif r < 0.86:
+        elif r < 0.8:
             ops.append(("getm", w, gen_names(rng), rng.random() < 0.6))
+        elif r < 0.86:
+            # single-series retrieval by name: unique, unknown or ambiguous (several files hold a, b, c, x y, T [kN/m]); caching on / off
+            ops.append(("get", w, rng.choice(PATS[:8] + NAMES), rng.random() < 0.6, rng.choice(["get", "geta"])))
         elif r < 0.92:
-            ops.append(("geti", w, rng.randint(0, 5), rng.random() < 0.6))
+            ops.append(("geti", w, rng.randint(0, 5), rng.random() < 0.6, rng.choice(["getm", "get", "geta"])))
+        elif r < 0.945:
+            ops.append(("chdir", rng.randrange(3)))
         else:
             ops.append(("iter", w))
     return ops
@@ -272,6 +279,44 @@ def gen_history(rng, L=None):
 def nameslist(x):
     """None | pattern | list of patterns -> the `names` argument as a list (or None)"""
     return None if x is None else (list(x) if isinstance(x, (list, tuple)) else [x])
+
+
+# how a file name is given to load(): absolute, relative to the working directory, or with redundant `.` / `..` components;
+# the database registers one spelling, the absolute normalised path
+SPELLINGS = ["abs", "abs", "abs", "rel", "rel", "dotted"]
+
+
+def spell(path, how):
+    if how == "rel":
+        return os.path.relpath(path)
+    if how == "dotted":
+        d = os.path.dirname(path)
+        return os.path.join(d, "..", os.path.basename(d), ".", os.path.basename(path))
+    return path
+
+
+def workdirs(paths, home):
+    """working directories of the `chdir` operation: the two data directories and the directory the check was started in"""
+    root = os.path.dirname(os.path.dirname(paths[0]))
+    return [os.path.join(root, "d1"), os.path.join(root, "d2"), home]
+
+
+class keep_cwd:
+    """histories may change the working directory: restore it"""
+
+    def __enter__(self):
+        self.home = os.getcwd()
+        return self.home
+
+    def __exit__(self, *a):
+        os.chdir(self.home)
+
+
+class _Arrays:
+    """(t, x) as returned by geta, for the data oracles"""
+
+    def __init__(self, t, x):
+        self.t, self.x = t, x
 
 
 def missing_file(paths):
@@ -303,6 +348,10 @@ def encode(ops, paths, head="db.run"):
             toks.append("getm %s %s %d" % (op[1], "none" if op[2] is None else hxlist(nameslist(op[2])), op[3]))
         elif k == "geti":
             toks.append("geti %s %d %d" % (op[1], op[2], op[3]))
+        elif k == "get":
+            toks.append("get1 %s %s %d" % (op[1], hx(op[2]), op[3]))
+        elif k == "chdir":
+            toks.append("clearl A =")                        # no operation on the databases
         elif k == "iter":
             toks.append("getm %s none 1" % op[1])       # registry effect of `for ts in db` (each key: get(name=key), store on)
     return head + " " + " ; ".join(toks)
@@ -342,8 +391,20 @@ def iteration(db):
     return ks, items, probs
 
 
+def model_text(reply, ops):
+    """`db.run` reply with the outcome of geta operations (arrays, no series object) written as the implementation side writes it"""
+    if not reply or not reply.startswith("ok "):
+        return reply
+    recs = reply[3:].split(" ; ")
+    for i, op in enumerate(ops):
+        if i < len(recs) and op[0] in ("get", "geti") and len(op) > 4 and op[4] == "geta":
+            recs[i] = re.sub(r"^series (\w+)=o\d+", r"arrays \1", recs[i])
+    return "ok " + " ; ".join(recs)
+
+
 def execute(ops, paths, chk=None, inp=None):
     from qats import TsDB, TimeSeries
+    home = os.getcwd()
     A, B = TsDB(), TsDB()
     ids, keep, recs, brecs = {}, [], [], []
     exp = {"A": {}, "B": {}}           # plain dictionary model of the data: key -> provenance
@@ -364,26 +425,28 @@ def execute(ops, paths, chk=None, inp=None):
     for op in ops:
         db = lambda w: A if w == "A" else B
         k = op[0]
-        snap = None
         bout = None                    # binding: (key, record the returned DATA identify) of every series returned
         upto = len(recs) + 1
         before = {"A": list(A.register_keys), "B": list(B.register_keys)}
+        # whatever is rejected must leave both databases as they were: registers, which keys are cached, the cached objects
+        snaps = {"A": snapshot(A), "B": snapshot(B)} if chk is not None else None
         try:
             if k == "load":
-                snap = (op[1], snapshot(db(op[1])))
-                db(op[1]).load(paths[op[2]], read=op[3])
+                db(op[1]).load(spell(paths[op[2]], op[4] if len(op) > 4 else "abs"), read=op[3])
                 out = "done"
                 for j, nm in enumerate(FILES[op[2]][1]):
                     exp[op[1]][os.path.join(paths[op[2]], nm)] = ("file", op[2], j)
             elif k == "loadl":
-                snap = (op[1], snapshot(db(op[1])))
-                db(op[1]).load([paths[fi] if fi >= 0 else missing_file(paths) for fi in op[2]], read=op[3])
+                how = op[4] if len(op) > 4 else ["abs"] * len(op[2])
+                db(op[1]).load([spell(paths[fi] if fi >= 0 else missing_file(paths), h) for fi, h in zip(op[2], how)], read=op[3])
                 out = "done"
                 for fi in op[2]:
                     for j, nm in enumerate(FILES[fi][1]):
                         exp[op[1]][os.path.join(paths[fi], nm)] = ("file", fi, j)
+            elif k == "chdir":
+                os.chdir(workdirs(paths, home)[op[1]])
+                out = "done"
             elif k == "add":
-                snap = (op[1], snapshot(db(op[1])))
                 ts = TimeSeries(op[2], t, t * 2 + 1000.0 * nadd)
                 keep.append(ts)
                 db(op[1]).add(ts)
@@ -393,7 +456,6 @@ def execute(ops, paths, chk=None, inp=None):
                     exp[op[1]][new[0]] = ("mem", nadd)
                 nadd += 1
             elif k == "rename":
-                snap = (op[1], snapshot(db(op[1])))
                 db(op[1]).rename(op[2], op[3])
                 out = "done"
                 after = list(db(op[1]).register_keys)
@@ -402,12 +464,10 @@ def execute(ops, paths, chk=None, inp=None):
                         if kb != ka and kb in exp[op[1]]:
                             exp[op[1]][ka] = exp[op[1]].pop(kb)
             elif k in ("clear", "clearl"):
-                snap = (op[1], snapshot(db(op[1])))
                 db(op[1]).clear(names=op[2] if k == "clear" else list(op[2]), display=False)
                 out = "done"
                 exp[op[1]] = {kk: v for kk, v in exp[op[1]].items() if kk in db(op[1]).register_keys}
             elif k == "update":
-                snap = ("A", snapshot(A))
                 A.update(B, names=nameslist(op[1]), shallow=not op[2])
                 out = "done"
                 for kk in A.register_keys:
@@ -430,13 +490,39 @@ def execute(ops, paths, chk=None, inp=None):
                     check_data(op[1], kk, v, "returned by getm", upto)
                 bout = [(hx(kk), identify(v, paths)) for kk, v in c.items()]
                 out = "series " + ",".join("%s=o%d" % (hx(kk), ids.setdefault(id(v), len(ids))) for kk, v in c.items())
-            elif k == "geti":
+            elif k == "geti" and (len(op) < 5 or op[4] == "getm"):
                 c = db(op[1]).getm(ind=op[2], store=op[3], fullkey=True)
                 keep.extend(c.values())
                 for kk, v in c.items():
                     check_data(op[1], kk, v, "returned by getm(ind)", upto)
                 bout = [(hx(kk), identify(v, paths)) for kk, v in c.items()]
                 out = "series " + ",".join("%s=o%d" % (hx(kk), ids.setdefault(id(v), len(ids))) for kk, v in c.items())
+            elif k in ("get", "geti"):
+                # single-series retrieval by name / register index through get() or geta(); the key it resolves to is taken from
+                # the listing (by name) / the key list (by index) as they are before the call
+                d, api = db(op[1]), op[4]
+                kw = dict(name=op[2]) if k == "get" else dict(ind=op[2])
+                if k == "get":
+                    listed = d.list(names=op[2], display=False)
+                    cand = [kk for kk in before[op[1]] if kk in listed]
+                else:
+                    cand = before[op[1]][op[2]:op[2] + 1] if op[2] >= 0 else []
+                if api == "get":
+                    v = d.get(store=op[3], **kw)
+                    keep.append(v)
+                else:
+                    v = _Arrays(*d.geta(store=op[3], **kw))
+                kk = cand[0] if len(cand) == 1 else "?"
+                how = "returned by %s(%s=%r, store=%s)" % (api, "name" if k == "get" else "ind", op[2], op[3])
+                if chk is not None and len(cand) != 1:
+                    chk.fail("a single-series retrieval succeeds only for a name / index that selects exactly one listed series",
+                             dict(inp, upto=upto, op=list(map(str, op))), "error", "%d candidates, returned data" % len(cand), clause="get-unique")
+                if chk is not None and api == "get" and op[3] and d.register.get(kk) is not v:
+                    chk.fail(T_STORE_TRUE + " (the series returned by a store-on retrieval is the cached one)",
+                             dict(inp, upto=upto, op=list(map(str, op))), "cached", kk, clause="store-true")
+                check_data(op[1], kk, v, how, upto)
+                bout = [(hx(kk), identify(v, paths))]
+                out = "series %s=o%d" % (hx(kk), ids.setdefault(id(v), len(ids))) if api == "get" else "arrays " + hx(kk)
             elif k == "iter":
                 ks, items, probs = iteration(db(op[1]))
                 keep.extend(items)
@@ -448,17 +534,26 @@ def execute(ops, paths, chk=None, inp=None):
                 out = "series " + ",".join("%s=o%d" % (hx(kk), ids.setdefault(id(v), len(ids))) for kk, v in zip(ks, items))
         except Exception as e:
             out = err_enum(e)
-            if chk is not None and snap is not None:
-                after = snapshot(db(snap[0]))
-                if after != snap[1]:
-                    chk.fail("a rejected operation leaves the database exactly as it was", dict(inp, op=list(map(str, op))),
-                             str(snap[1])[:300], str(after)[:300], clause="rejected-unchanged")
+            for w, d in (("A", A), ("B", B)) if chk is not None else ():
+                after = snapshot(d)
+                # the one exception (theorem rejected_unchanged): a rejected update may have read and cached series of its source B
+                part = slice(0, 4) if k == "update" and w == "B" else slice(None)
+                if after[part] != snaps[w][part] and "rejected" not in reported:
+                    reported.add("rejected")
+                    chk.fail("a rejected operation leaves the database exactly as it was (registers, cached keys, cached objects)",
+                             dict(inp, upto=upto, db=w, op=list(map(str, op)), error=out), str(snaps[w])[:300], str(after)[:300],
+                             clause="rejected-unchanged")
         for w, d in (("A", A), ("B", B)):
             keep.extend(v for v in d.register.values() if v is not None)
             if chk is not None:
                 pr = coherent(d)
                 if pr:
                     chk.fail(T_COHERENT, dict(inp, upto=len(recs) + 1, db=w), "coherent", pr, clause="coherent")
+                if set(d.register_keys) != set(exp[w]) and "keys" not in reported:
+                    reported.add("keys")
+                    chk.fail(T_COHERENT + " (the listing is what the dictionary model holds: one key per registered series, under the "
+                             "absolute path of its file however the file was named)", dict(inp, upto=upto, db=w, op=list(map(str, op))),
+                             sorted(exp[w]), list(d.register_keys), clause="keys")
                 for kk, v in list(d.register.items()):
                     check_data(w, kk, v, "cached in the register", upto)
         recs.append("%s # %s # %s" % (out, digest(A, ids), digest(B, ids)))
@@ -863,13 +958,23 @@ def run(chk):
                  [("loadl", "A", [1, 1], True), ("iter", "A")], [("loadl", "B", [2, -1], False), ("loadl", "B", [2, 3], True), ("iter", "B")],
                  [("loadl", "A", [0, 1], False), ("clearl", "A", ["*a", "f1.pkl/*"]), ("iter", "A")],
                  [("load", "A", 3, False), ("getm", "A", ["*", "a", "?"], True), ("clearl", "A", ["a", "*a", "a"]), ("getm", "A", ["*", "*"], False)]]
+        # file names in other spellings (relative to the working directory, as a list, with redundant components), the same file
+        # through two spellings, reading after a change of the working directory; single-series retrieval by an ambiguous /
+        # unknown / unique name and by index through get() and geta(), caching on and off
+        hist += [[("loadl", "A", [0], False, ["rel"]), ("load", "A", 0, False, "abs"), ("chdir", 0), ("getm", "A", None, False)],
+                 [("load", "A", 3, False, "rel"), ("chdir", 1), ("loadl", "A", [3, 1], False, ["dotted", "rel"]), ("loadl", "B", [1, 4], True, ["rel", "dotted"]),
+                  ("chdir", 2), ("iter", "A")],
+                 [("load", "A", 0, False, "abs"), ("load", "A", 1, False, "rel"), ("get", "A", "a", True, "get"), ("get", "A", "a", True, "geta"),
+                  ("get", "A", "nomatch", True, "get"), ("get", "A", "x y", True, "geta"), ("get", "A", "*", False, "get"), ("geti", "A", 9, True, "get"),
+                  ("geti", "A", 1, True, "geta"), ("get", "A", "c", False, "get")]]
         hist += [gen_history(rng) for _ in range(250 if chk.quick else 4000)]
         if not chk.quick:
             alpha = [("load", "A", 0, False), ("load", "A", 0, True), ("load", "A", 1, False), ("load", "B", 0, False), ("add", "A", "a"),
                      ("add", "A", "T [kN/m]"), ("rename", "A", "a", "b"), ("rename", "A", "a", "new"), ("clear", "A", "a"), ("clear", "A", None),
                      ("update", None, True), ("update", "a", False), ("copy", None, True), ("copy", "b", False),
                      ("getm", "A", None, True), ("getm", "A", "a", False), ("getm", "A", ["c", "a"], False), ("iter", "A"),
-                     ("loadl", "A", [1, 0], False), ("loadl", "A", [2, -1], True), ("clearl", "A", ["*a", "f1.pkl/*"])]
+                     ("loadl", "A", [1, 0], False), ("loadl", "A", [2, -1], True), ("clearl", "A", ["*a", "f1.pkl/*"]),
+                     ("loadl", "A", [0], False, ["rel"]), ("get", "A", "a", True, "get")]
             for L in (1, 2, 3):
                 hist += [list(h) for h in itertools.product(alpha, repeat=L)]
         lines = [encode(h, paths) for h in hist]
@@ -879,9 +984,12 @@ def run(chk):
         for h, o, bo in zip(hist, outs, bouts):
             inp = dict(ops=[list(op) for op in h], files=files)
             chk.count("db.run")
-            im, state = execute(h, paths, chk, inp)
-            bind_last = compare_bind(parse_bind(bo), state[4], chk, inp)
-            a, b = renumber(o), renumber(im)
+            with keep_cwd():
+                im, state = execute(h, paths, chk, inp)
+                bind_last = compare_bind(parse_bind(bo), state[4], chk, inp)
+                # every listed series is retrievable and holds the predicted data; caching semantics; iteration
+                final_checks(state, chk, inp, bind_last)
+            a, b = renumber(model_text(o, h)), renumber(im)
             if a != b:
                 ao, bo = a.split(" ; "), b.split(" ; ")
                 i = next((i for i, (x, y) in enumerate(zip(ao, bo)) if x != y), min(len(ao), len(bo)))
@@ -897,8 +1005,6 @@ def run(chk):
                                           "several exact names" if all(x in NAMES for x in nm) else "list of %d patterns" % len(nm)))
             for m in set(x.split(" #")[0] for x in im[3:].split(" ; ")):
                 chk.dist("out:" + (m.split()[0] + (" " + m.split()[1] if m.startswith("err") else "")))
-            # every listed series is retrievable and holds the predicted data; caching semantics; iteration
-            final_checks(state, chk, inp, bind_last)
             if len(chk.samples) < 3 and 4 <= len(h) <= 6:
                 chk.sample(dict(ops=[list(map(str, op)) for op in h], model_reply=a[:400]))
         # ---- second family: one file per format, multi-series requests out of file order -----------------------------------------
@@ -966,10 +1072,11 @@ def replay(rp):
             except Exception as e:                     # the oracles do not need the model
                 print("(model not available: %s)" % e)
                 o = bo = None
-            im, state = execute(ops, paths, chk, dict(ops=inp["ops"]))
-            bind_last = compare_bind(parse_bind(bo), state[4], chk, dict(ops=inp["ops"])) if bo is not None else None
-            final_checks(state, chk, dict(ops=inp["ops"]), bind_last)
-            if o is not None and renumber(o) != renumber(im):
+            with keep_cwd():
+                im, state = execute(ops, paths, chk, dict(ops=inp["ops"]))
+                bind_last = compare_bind(parse_bind(bo), state[4], chk, dict(ops=inp["ops"])) if bo is not None else None
+                final_checks(state, chk, dict(ops=inp["ops"]), bind_last)
+            if o is not None and renumber(model_text(o, ops)) != renumber(im):
                 print("model and implementation differ")
         for d in getattr(chk, "disagreements", []):
             print("DIFFERS (%s):" % d.get("stream"), str(d.get("input", {}).get("what", ""))[:120], "| model", str(d.get("model"))[:300],
